@@ -33,18 +33,19 @@ import (
 )
 
 type c14cfg struct {
-	ID       string `json:"id"`
-	Backend  string `json:"backend"`
-	Shards   int    `json:"shards"`
-	Workers  int    `json:"workers"`
-	Ops      int    `json:"ops_per_worker"`
-	Keys     int    `json:"keys"`
-	Collide  bool   `json:"keys_collide_on_one_shard"`
-	Limit    int64  `json:"limit"`
-	Churn    bool   `json:"config_churn"`
-	Destroy  string `json:"destroy"` // after | during | twice
-	Level    string `json:"level"`   // cache | proxy
-	Sabotage bool   `json:"unremovable_expired_files"`
+	ID         string `json:"id"`
+	Backend    string `json:"backend"`
+	Shards     int    `json:"shards"`
+	Workers    int    `json:"workers"`
+	Ops        int    `json:"ops_per_worker"`
+	Keys       int    `json:"keys"`
+	Collide    bool   `json:"keys_collide_on_one_shard"`
+	Limit      int64  `json:"limit"`
+	Churn      bool   `json:"config_churn"`
+	Destroy    string `json:"destroy"` // after | during | twice
+	Level      string `json:"level"`   // cache | proxy
+	Sabotage   bool   `json:"unremovable_expired_files"`
+	Revalidate bool   `json:"expire_and_renew_pattern"`
 }
 
 var c14progress atomic.Int64
@@ -150,6 +151,13 @@ func c14cache(r *core.Recorder, c c14cfg, seedRng func(string) interface{ IntN(i
 		time.Sleep(10 * time.Millisecond) // a few janitor cycles meet the unremovable files
 		r.Count("sabotaged_cleanup_configurations", 1)
 	}
+	if c.Revalidate {
+		for _, k := range keys {
+			if e, err := vc.Cache(k, strings.NewReader("short-lived"), time.Now().Add(300*time.Microsecond), rig.Obj{}); err == nil && e.Data != nil {
+				e.Data.Close()
+			}
+		}
+	}
 	ok := c14watch(r, cs, 15*time.Second, func() {
 		var workers, churn sync.WaitGroup
 		for w := 0; w < c.Workers; w++ {
@@ -163,7 +171,25 @@ func c14cache(r *core.Recorder, c c14cfg, seedRng func(string) interface{ IntN(i
 					}
 					k := keys[rng.IntN(len(keys))]
 					c14pending.Add(1)
-					switch rng.IntN(10) {
+					op := rng.IntN(10)
+					if c.Revalidate {
+						// the revalidation pattern: entries that are already expired get their expiry renewed while
+						// the janitor's cycles are collecting and removing expired entries
+						switch {
+						case op < 1:
+							if e, err := vc.Cache(k, strings.NewReader("short-lived"), time.Now().Add(300*time.Microsecond), rig.Obj{}); err == nil && e.Data != nil {
+								e.Data.Close()
+							}
+							op = -1
+						case op < 9:
+							vc.UpdateMetadata(k, func(m *cache.EntryMetadata[rig.Obj]) { m.Expires = time.Now().Add(300 * time.Microsecond) })
+							op = -1
+						default:
+							op = 5
+						}
+					}
+					switch op {
+					case -1:
 					case 0, 1, 2, 3:
 						if e, err := vc.Cache(k, strings.NewReader(string(rig.Body(1, i, 64+rng.IntN(400)))), time.Now().Add(time.Duration(rng.IntN(3)-1)*time.Hour), rig.Obj{}); err == nil && e.Data != nil {
 							e.Data.Close()
@@ -182,6 +208,21 @@ func c14cache(r *core.Recorder, c c14cfg, seedRng func(string) interface{ IntN(i
 					}
 					c14pending.Add(-1)
 					c14progress.Add(1)
+				}
+			}()
+		}
+		if c.Revalidate {
+			// back-to-back cleanup cycles on top of the ticker-driven ones
+			churn.Add(1)
+			go func() {
+				defer churn.Done()
+				for {
+					select {
+					case <-stop:
+						return
+					default:
+						vc.VerifRunCleanupCycle()
+					}
 				}
 			}()
 		}
@@ -328,6 +369,10 @@ func c14Run(b core.Batch, r *core.Recorder) {
 						continue
 					}
 					c.Workers, c.Ops, c.Limit = 12, b.Int("ops", 60), 3000
+				}
+				if level == "cache" && sh == 1024 && !collide {
+					// many keys on distinct locks, entries expiring and being renewed under the janitor's feet
+					c.Keys, c.Revalidate, c.Limit, c.Workers, c.Ops = 400, true, 1<<30, 4, c.Ops*4
 				}
 				if !r.Case(c.ID, c) {
 					continue
